@@ -71,7 +71,7 @@ class Langs:
             call = x.extra['regexp']
             if not (isinstance(call, ast.Call) and norm(call.func) == 're.compile' and call.args):
                 raise AnalysisError('%s:%d: resolver regexp is not a re.compile literal' % (x.module.rel, x.stmt.lineno))
-            pat = A.const_str(call.args[0])
+            pat = A.fold_str(call.args[0], x.module)
             flags = self._flags(call)
             if pat is None:
                 raise AnalysisError('%s:%d: resolver pattern is not a literal' % (x.module.rel, x.stmt.lineno))
@@ -81,7 +81,7 @@ class Langs:
         tsv = S.attrs.get('timestamp_regexp')
         if not tsv or not isinstance(tsv[-1], ast.Call):
             raise AnalysisError('SafeConstructor.timestamp_regexp has vanished')
-        self.ts_pat = A.const_str(tsv[-1].args[0])
+        self.ts_pat = A.fold_str(tsv[-1].args[0], S.module)
         self.ts_flags = self._flags(tsv[-1])
         self.ts_node = tsv[-1]
         pts |= RL.points_of(self.ts_pat, self.ts_flags)
